@@ -104,6 +104,10 @@ class World:
                           ex["Tdown"][1:, 1:]) / 3
             d["rho0"] = rho
             d["press"] = p
+        for key, idx in c.get("nan_at", []):
+            # excised / invalid points: NaN is a value users do put in inputs
+            if key in d:
+                d[key][(Ellipsis,) + tuple(idx)] = np.nan
         for k in c.get("extra_inputs", []):
             # additional documented inputs: a velocity / Lorentz factor field
             if k == "vel":
@@ -274,7 +278,7 @@ def strategies():
     def config(draw, aggressive=False, with_importance=False):
         kind = draw(st.sampled_from(["Wp", "Wp", "Wn", "Wn", "KS", "PP", "F",
                                      "FL"]))
-        order = draw(st.sampled_from([2, 4]))
+        order = draw(st.sampled_from([2, 4, 4, 4]))
         if kind == "Wp":
             N = [draw(st.integers(6, 9)) for _ in range(3)]
             h = [draw(dy(0.0625, 0.125)) for _ in range(3)]
@@ -340,6 +344,12 @@ def strategies():
                                  and draw(st.booleans()) else []),
                    freeze=draw(st.sampled_from(["freeze_data",
                                                 "load_data"])))
+        if draw(st.integers(0, 3)) == 0:
+            cand = [k for k in ("kxx", "kyz", "Kdown3", "gxx", "gammadown3",
+                                "alpha", "betay", "betaup3", "Tdown4")]
+            cfg["nan_at"] = [[draw(st.sampled_from(cand)),
+                              [draw(st.integers(0, n - 1)) for n in N]]
+                             for _ in range(draw(st.integers(1, 2)))]
         if with_importance:
             ks = draw(st.lists(st.sampled_from(ALL_KEYS), max_size=4,
                                unique=True))
@@ -540,8 +550,8 @@ class Run:
             return
         bh = self.world.fresh(op, hi=True)
         E = discrepancy(bh[1], b[1])[0] if bh[0] == "ok" else 0.0
-        if d <= self.TOL + 20 * E:
-            self.cls("branch-difference-within-20E")
+        if d <= self.TOL + 10 * E:
+            self.cls("branch-difference-within-10E")
             return
         # adjudicate: the same history at FD order p+2
         d_hi = self.replay_discrepancy()
